@@ -34,9 +34,27 @@ def _anchors():
 ANCHORS = _anchors()
 
 
+def _json_keys(ctx):
+    """Dictionary keys of the astq fact format (they are quoted all over the rule sources but are not function names)."""
+    keys = set()
+    todo = [ctx.astq['functions'][:40]]
+    n = 0
+    while todo and n < 200000:
+        x = todo.pop()
+        n += 1
+        if isinstance(x, dict):
+            keys.update(x.keys())
+            todo.extend(x.values())
+        elif isinstance(x, list):
+            todo.extend(x)
+    return keys
+
+
 def _index(ctx):
     ix = getattr(ctx, '_inline_index', None)
     if ix is None:
+        global ANCHORS
+        ANCHORS = ANCHORS - _json_keys(ctx)
         ix = {}
         for f in ctx.astq['functions']:
             ix.setdefault((f['file'], f['name'].split('::')[-1]), []).append(f)
@@ -50,9 +68,9 @@ def resolve(ctx, f, c):
     name = str(c.get('f') or '')
     base = name.replace(' ', '').split('::')[-1]
     cands = _index(ctx).get((f['file'], base), [])
-    if not cands:
-        return None
     recv = c.get('recv')
+    if not cands and recv is None:
+        return None
     if recv is None:
         qual = name.replace(' ', '').split('::')[:-1]
         if qual and qual[-1] not in ('Self', 'self', 'crate', 'super') and qual[-1] != (f.get('self_ty') or ''):
@@ -66,7 +84,13 @@ def resolve(ctx, f, c):
     else:
         r = vt.unvar(recv)
         if not (isinstance(r, dict) and r.get('k') == 'atom' and r.get('root') == 'self' and not r.get('path')):
-            return None
+            # a method of a workspace type called on a value of that type (e.g. a new accessor on an IR struct)
+            t = str((r or {}).get('ty') or '').replace('&', '').replace('mut ', '').strip().split('<')[0] if isinstance(r, dict) else ''
+            if not t or t in ('String', 'str', 'Vec', 'Option', 'bool'):
+                return None
+            ms = [g for g in ctx.astq['functions'] if g['name'].split('::')[-1] == base and (g.get('self_ty') or '').split('<')[0] == t
+                  and any(p['name'] == 'self' for p in g['params']) and len(g['params']) - 1 == len(c.get('args', [])) and not g.get('trait')]
+            return ms[0] if len(ms) == 1 else None
         cs = [g for g in cands if any(p['name'] == 'self' for p in g['params']) and (g.get('self_ty') or '') == (f.get('self_ty') or '')
               and len(g['params']) - 1 == len(c.get('args', []))]
     return cs[0] if len(cs) == 1 else None
